@@ -90,5 +90,5 @@ for _pid, _mod in {
 }.items():
     CHECKS[_pid] = _lazy(_mod)
 
-for _pid, _fn in {"C02": "c02", "C03": "c03", "C06": "c06"}.items():
+for _pid, _fn in {"C02": "c02", "C03": "c03", "C06": "c06", "C08": "c08"}.items():
     CHECKS[_pid] = _lazy("rules", _fn)
